@@ -3,6 +3,8 @@
 pub mod common;
 pub mod refmodel;
 pub mod ts;
+pub mod vsched;
+pub mod lworld;
 
 #[allow(non_camel_case_types, non_snake_case, dead_code, unused_imports)]
 pub mod org_verif_t {
